@@ -162,6 +162,13 @@ func (t *template) layout(ctx context.Context, w io.Writer) error {
 		}
 
 		layout := tpl.Get("layout")
+		if _, own := tpl.frontMatter["layout"]; !own && !isFirstTemplate {
+			// A layout continues the chain only through its own front-matter.
+			// A layout key from the site configuration or the data names the
+			// page's layout; inherited by every layout file, it would send
+			// each of them to that layout again - a cycle that is not there.
+			layout = ""
+		}
 
 		if layout == "" {
 			// No layout specified
